@@ -1,7 +1,7 @@
 """Self-tests of the reference models on hand-computed cases (run by setup_cmd)."""
 import importlib
 
-MODULES = ["lev", "mec"]
+MODULES = ["lev", "mec", "fb"]
 
 
 def run():
